@@ -73,14 +73,16 @@ def r1_leaves(program, rep):
         n = cfg.node_containing(nn[0])
         b_ = {k: T.term(v, n) for k, v in bind(nn[0], program.get(
             NER + ":ner_net")).items()}
-        dest = ("call", ("global", "set"),
-                (("genexp", ("item", P("placements"), SINK),
-                  ((SINKS, ()),)),), ())
+        # the destinations: the chip of every sink, however the collection
+        # is spelt (set(...) of a generator, a set comprehension, a loop)
+        built = T.filtered(b_.get("destinations", ("?",)))
+        okd = bool(built) and len(built) == 1 and \
+            plain(built[0][0]) == SINKS and \
+            plain(built[0][1]) == ("item", P("placements"), SINK) and \
+            not built[0][2]
         wrap = plain(b_.get("wrap_around", ("?",)))
         ok = b_.get("source") == ("item", P("placements"),
-                                  ("attr", NET, "source")) and \
-            plain(b_.get("destinations", ("?",))) in (
-                dest, ("call", ("global", "frozenset"), dest[2], ())) and \
+                                  ("attr", NET, "source")) and okd and \
             b_.get("width") == ("attr", P("machine"), "width") and \
             b_.get("height") == ("attr", P("machine"), "height") and \
             wrap == ("call", ("attr", P("machine"),
